@@ -48,7 +48,7 @@ type Solver struct {
 }
 
 func NewSolver(stats *SolverStats) *Solver {
-	return &Solver{Bin: "z3", Args: []string{"-in", "-smt2"}, Timeout: 8 * time.Second, Stats: stats}
+	return &Solver{Bin: envSolver(), Args: []string{"-in", "-smt2"}, Timeout: 8 * time.Second, Stats: stats}
 }
 
 func (s *Solver) start() error {
@@ -432,4 +432,12 @@ func (s *Solver) fallback(body string, vals []*Term) (Result, []uint64, bool) {
 		return Sat, out, true
 	}
 	return Unknown, nil, false
+}
+
+// envSolver: the deciding solver binary (default z3 4.8.12 = "z3"; GOSYM_SOLVER=z3-new selects 5.1).
+func envSolver() string {
+	if b := os.Getenv("GOSYM_SOLVER"); b != "" {
+		return b
+	}
+	return "z3"
 }
